@@ -12,13 +12,17 @@ import (
 )
 
 func init() {
+	register(&Rule{ID: "T-tree-deep", Min: 30, Thorough: true, Run: func(c *load.Ctx, r *report.RuleResult) { runTTreeN(c, r, 4) },
+		Doc: "T-tree with up to 4 live candidates (distinct parents and alternatives of one value)"})
 	register(&Rule{ID: "T-tree", Min: 30, Run: runTTree,
 		Doc: "validator tree bookkeeping: for 1..3 live candidate validators and every combination of per-candidate outcomes on one lexeme (fails / completes with or without a parent / continues / spawns two children), Tree.FeedLeaves feeds every live candidate exactly once, drops exactly the failed ones, steps a completed one back to its parent (or removes it), replaces a spawning one by its first child and appends the others, rejects iff every candidate failed (with the candidate's own error when it was alone), and reports completion iff no candidate is left"})
 	register(&Rule{ID: "T-allfail", Min: 6, Run: runTAllFail,
 		Doc: "schema check of a literal example against its candidate checkers: every candidate is consulted, and the node is rejected iff all of them fail — with the candidate's own positioned error when it is alone, with the or-rule-set error otherwise"})
 }
 
-func runTTree(c *load.Ctx, r *report.RuleResult) {
+func runTTree(c *load.Ctx, r *report.RuleResult) { runTTreeN(c, r, 3) }
+
+func runTTreeN(c *load.Ctx, r *report.RuleResult, maxN int) {
 	e := newTableEnv(c)
 	// three candidates x five outcomes x every iteration order of the live set
 	e.cfg.MaxPaths = 200000
@@ -82,6 +86,11 @@ func runTTree(c *load.Ctx, r *report.RuleResult) {
 		shared bool // the candidates are alternatives of one value: they share one parent
 	}
 	scenarios := []scenario{{1, false}, {2, false}, {3, false}, {2, true}, {3, true}}
+	if maxN >= 4 {
+		scenarios = append(scenarios, scenario{4, false}, scenario{4, true})
+		e.cfg.MaxPaths = 2000000
+		e.cfg.TotalFuel = 4000000000
+	}
 	for _, sc := range scenarios {
 		n := sc.n
 		shared := sc.shared
